@@ -340,23 +340,22 @@ def model_replace(case):
   import fedjax
   fam = case['family']
   specs, mets, model, pool, poison, singles, zeros = family(fam)
-  alt = {}
-  for k, sp in specs.items():
+  def other(sp):
+    """Same metric class / statistic shapes, different configuration (so that only the metric OBJECTS differ)."""
     sp2 = dict(sp)
     if sp2['name'] == 'PerDomainMetric':
-      sp2 = dict(sp2, num_domains=sp2['num_domains'] + 1)
-    elif 'k' in sp2:
-      sp2['k'] = sp2['k'] - 1
-    elif 'masked_target_values' in sp2 or sp2['name'].startswith('Sequence'):
-      sp2['masked_target_values'] = sorted(set(sp2.get('masked_target_values', [0])) | {2}) if 2 not in sp2.get(
-          'masked_target_values', [0]) else [0]
-    elif sp2['name'] == 'Accuracy':
-      sp2 = {'name': 'TopKAccuracy', 'k': 2}
-    elif sp2['name'] == 'CrossEntropyLoss':
-      sp2 = {'name': 'Accuracy'}
-    elif sp2['name'] == 'ConfusionMatrix':
-      sp2 = {'name': 'Accuracy'}
-    alt[k] = sp2
+      return dict(sp2, base=other(sp2['base']))
+    if 'k' in sp2:
+      return dict(sp2, k=sp2['k'] - 1)
+    if sp2['name'].startswith('Sequence'):
+      mv = sp2.get('masked_target_values', [0])
+      return dict(sp2, masked_target_values=sorted(set(mv) | {2}) if 2 not in mv else [0])
+    if sp2['name'] == 'Accuracy':
+      return {'name': 'TopKAccuracy', 'k': 2}
+    if sp2['name'] == 'CrossEntropyLoss':
+      return {'name': 'Accuracy'}
+    return sp2  # ConfusionMatrix: no shape-preserving alternative
+  alt = {k: other(sp) for k, sp in specs.items()}
   mets_b = {k: mr.build(sp) for k, sp in alt.items()}
   model_b = model.replace(eval_metrics=mets_b)
   import jax.numpy as jnp
